@@ -8,7 +8,8 @@ from harness.framework import Suite
 
 PID = "C06"
 LEAN_MODS = ["SwcVerif.Props.C06", "SwcVerif.Props.C06Gen"]
-TRANSLATE_ALGO = ["AlgoSubtree"]       # Gen/AlgoSubtree.lean is regenerated from swc_utils/subtree.py::to_sub_topology on every run
+TRANSLATE_ALGO = ["AlgoTraverse", "AlgoSubtree"]   # Gen/AlgoSubtree.lean is regenerated on every run from swc_utils/subtree.py (to_sub_topology,
+# get_subtree_impl and its collecting lambda, propagate_removal and its closure); it calls the traversal generated into Gen/AlgoTraverse.lean
 DRIVER_FILES = ["SwcVerif/Model/AlgoRunSubtree.lean"]
 THEOREMS = [
     "C06.toSubTopology_spec", "C06.toSubTopology_ok_iff", "C06.attrs_preserved", "C06.subtree_nodes", "C06.propagate_marks",
@@ -16,6 +17,10 @@ THEOREMS = [
     "C06.cutByType_kept", "C06.cutByOrder_rule", "C06.isFurcation_iff", "C06.cutShortTip_removed",
     # refinement: the definition generated from to_sub_topology on this run equals the model (KeyError included)
     "RefineSub.toSubTopology_refines", "C06.generated_toSubTopology_eq_model",
+    # the generated get_subtree_impl (collecting lambda + generated traversal + fancy indexing + to_sub_topology) equals the model's getSubtree;
+    # the generated propagate_removal (closure writing the id column through the traversal) marks exactly the descendants
+    "RefineClosures.spec_wrap", "RefineClosures.spec_wrap_on", "RefineClosures.traverse_closures_on", "RefineClosures.spec_abs",
+    "C06.generated_getSubtree_eq_model", "C06.propagate_closure", "C06.absMark_step", "C06.generated_propagateRemoval",
 ]
 TRUSTED = ["hand-written models Model/Subtree.lean of to_sub_topology / propagate_removal / get_subtree_impl / to_subtree / cut_tree / CutByType / "
            "CutByFurcationOrder / CutShortTipBranch (tied by the c06.ops correspondence: new parents and new→old mapping compared exactly)"]
@@ -437,7 +442,13 @@ class Ops(Suite):
             a += f" m={op['m']}"
         else:
             a += f" elen={gen.ints(t['elen'])} thre={op['thre']}"
-        return [(f"{k} {a}", f"{gen.ints(res['pid']).replace('_', '')} / {gen.ints(self._mapping(case, res)).replace('_', '')}")]
+        want = f"{gen.ints(res['pid']).replace('_', '')} / {gen.ints(self._mapping(case, res)).replace('_', '')}"
+        out = [(f"{k} {a}", want)]
+        # the same operation through the definitions GENERATED on this run from get_subtree_impl / propagate_removal / to_sub_topology
+        # (their closures and the traversal they call included)
+        if k in ("subtree", "tosub") and case["op"]["op"] in ("subtree", "tosub"):
+            out.append((f"g{k} {a}", want))
+        return out
 
     def oracle(self, case, res):
         t, op = self._tree(case, res), case["op"]
@@ -584,8 +595,10 @@ TECHNIQUE = ("Lean 4 theorems by structural induction (via C04's loop = recursio
              "propagate_removal / cut_tree / CutByType / CutByFurcationOrder / CutShortTipBranch + differential correspondence (new parents and "
              "new→old mapping compared exactly) + an oracle that evaluates each rule literally; to_sub_topology (the compaction / parent remap / mapping step behind every extraction "
              "and cut) is TRANSLATED from the current source on every run (harness/translate_algo.py → Gen/AlgoSubtree.lean) and proved equal to its model, KeyError included "
-             "(RefineSub.toSubTopology_refines)")
+             "(RefineSub.toSubTopology_refines); get_subtree_impl with its collecting lambda and propagate_removal with its marking closure are translated too "
+             "(closures as state-passing callbacks of the generated traversal) and proved: the generated get_subtree_impl EQUALS the model's getSubtree, the generated "
+             "propagate_removal marks exactly the descendants of marked nodes and changes nothing else (C06.generated_getSubtree_eq_model, C06.generated_propagateRemoval)")
 LEVEL_TEXT = ("Kernel-checked for every tree shape and numbering: the kept rows are exactly the designated nodes, the compaction renumbers them 0..m-1 in order, "
               "every kept non-root row's new parent is the new id of its old parent, the new root has none, the mapping lists the old ids, every column is read "
               "through the mapping. Removal marks reach exactly the descendants of marked nodes.")
-LEVEL_NOTE = "Trusted: Lean kernel; the imperative translator and its semantics library Model/Py.lean for to_sub_topology (cross-checked by running the generated definition); hand-written callback models tied by correspondence (exhaustive for all sorted trees with n ≤ 4/5); numpy fancy indexing."
+LEVEL_NOTE = "Trusted: Lean kernel; the imperative translator and its semantics library Model/Py.lean for to_sub_topology / get_subtree_impl / propagate_removal (cross-checked by running the generated definitions, ops gsubtopo / gsubtree / gtosub); hand-written callback models tied by correspondence (exhaustive for all sorted trees with n ≤ 4/5); numpy fancy indexing."
